@@ -49,6 +49,7 @@ var (
 	cNotModelled  = simrt.RegisterCounter("probe_block_not_judged_by_device_model")
 	cSubBand      = simrt.RegisterCounter("op_sub_band_configuration")
 	cSharedBand   = simrt.RegisterCounter("op_shared_band_with_concurrent_planners")
+	cDeep         = simrt.RegisterCounter("op_long_history_plan_grown_to_several_blocks")
 	cReuseBuf     = simrt.RegisterCounter("fault_caller_reuses_its_device_list_buffer")
 	cScribble     = simrt.RegisterCounter("fault_caller_overwrites_a_plan_it_was_handed")
 	cPlaceholder  = simrt.RegisterCounter("op_add_placeholder_slot_frequency_0")
@@ -78,6 +79,7 @@ type msg struct {
 }
 
 type world struct {
+	deep    bool
 	shared  bool     // several tasks plan on this band at the same time
 	devBuf  [256]int // the caller's device-list buffer, re-used from call to call (single-owner runs)
 	lastPls []lorawan.LinkADRReqPayload
@@ -99,6 +101,13 @@ func build(sw *sim.World) {
 	dt := lorawan.DwellTime(simrt.Choose(2))
 	nSteps := 4 + simrt.Choose(30*sim.Scale)
 	w.faults = simrt.Choose(4) != 0
+	// now and then a long-lived network: a dynamic plan that has grown to
+	// several 16-channel blocks (up to the 96 channels ChMaskCntl 0..5 address)
+	w.deep = simrt.Choose(30) == 1
+	if w.deep {
+		nSteps = 40 + simrt.Choose(60)
+		simrt.Count(cDeep)
+	}
 	b, err := band.GetConfig(name, rep, dt)
 	if err != nil {
 		panic(err)
@@ -125,6 +134,9 @@ func build(sw *sim.World) {
 		// dynamic plans: device channels up to two blocks beyond the 16 the
 		// region defines (a network that once had more channels)
 		w.maxIdx = 40
+		if w.deep {
+			w.maxIdx = 96
+		}
 	}
 	r := sim.NewRand(simrt.Raw())
 	if simrt.Choose(5) == 0 {
@@ -223,7 +235,7 @@ func (w *world) bandOp(r *sim.Rand) {
 		return
 	}
 	switch k := r.Intn(10); {
-	case k < 3 && w.m.SupportsExtra && n < 30 && len(w.m.CustomIdx()) < 20:
+	case (k < 3 || (w.deep && k < 6)) && w.m.SupportsExtra && ((n < 30 && len(w.m.CustomIdx()) < 20) || (w.deep && n < 92)):
 		f := uint32(860000000 + 100000*r.Intn(200))
 		minDR, maxDR := w.m.CFMinDR, w.m.CFMaxDR
 		if r.Intn(4) == 0 {
